@@ -31,6 +31,10 @@ def Builder.noteEnds (b : Builder) (s e : Key) : Builder :=
   { b with startNodes := if s = START then b.startNodes ++ [e] else b.startNodes,
            endNodes := if e = END then b.endNodes ++ [s] else b.endNodes }
 
+def mapOk (g : Builder → Builder) : Except ErrKind Builder → Except ErrKind Builder
+  | .error k => .error k
+  | .ok b => .ok (g b)
+
 /-- `addEdgeWithMappings` after the guards.  `inCtl` is the source fact "the two appends above
     stand inside `if !noControl { … }`" (only an edge that carries a control dependency makes
     START connected / END reachable); `false` = they stand after the data part and run for
@@ -51,16 +55,13 @@ def addEdgeBodyK (inCtl : Bool) (im : Impl) (ord : Ord) (b : Builder) (s e : Key
     match r1 with
     | .error k => .error k
     | .ok b1 =>
-      let r2 : Except ErrKind Builder :=
+      mapOk (fun b3 => if inCtl then b3 else b3.noteEnds s e) <|
         if noData then .ok b1
         else if b1.dataEdges.contains (s, e) then .error .dupData
         else
           match update im ord (b1.addToValidate s { dst := e, mapped }) with
           | .error k => .error k
           | .ok b2 => .ok { b2 with dataEdges := b2.dataEdges ++ [(s, e)] }
-      match r2 with
-      | .error k => .error k
-      | .ok b3 => .ok (if inCtl then b3 else b3.noteEnds s e)
 
 def addEdgeK (f : Facts) (inCtl : Bool) (im : Impl) (ord : Ord) (b : Builder) (s e : Key)
     (noControl noData : Bool) (mapped : Option Nat) : Builder × Outcome :=
